@@ -61,6 +61,70 @@ def envWriteOp (args : List String) : String :=
     | _, _ => "bad-op"
   | _, _, _, _ => "bad-op"
 
+/-- option trees in prefix form: `I n e1 … en` (`-` = nil), `G n o1 … on` (also `GC`, `GH`), `O` -/
+def parseOpts : Nat → Nat → List String → Option (List Opt × List String)
+  | _, 0, toks => some ([], toks)
+  | 0, _, _ => none
+  | fuel + 1, k + 1, toks =>
+    match toks with
+    | "O" :: rest =>
+      (parseOpts fuel k rest).map fun (os, r) => (Opt.other :: os, r)
+    | "I" :: n :: rest =>
+      match n.toNat? with
+      | some cnt =>
+        let ids := (rest.take cnt).map fun t => if t == "-" then none else t.toNat?
+        if (rest.take cnt).length = cnt then
+          (parseOpts fuel k (rest.drop cnt)).map fun (os, r) => (Opt.interceptors ids :: os, r)
+        else none
+      | none => none
+    | g :: n :: rest =>
+      if g == "G" || g == "GC" || g == "GH" then
+        match n.toNat? with
+        | some cnt =>
+          match parseOpts fuel cnt rest with
+          | some (children, r) => (parseOpts fuel k r).map fun (os, r') => (Opt.group children :: os, r')
+          | none => none
+        | none => none
+      else none
+    | _ => none
+
+def idList (l : List Nat) : String := if l.isEmpty then "-" else ",".intercalate (l.map toString)
+
+def icptOp (args : List String) : String :=
+  match args with
+  | _side :: _kind :: n :: toks =>
+    match n.toNat? with
+    | some cnt =>
+      match parseOpts (toks.length + 2) cnt toks with
+      | some (opts, []) =>
+        let order := effectiveOrder opts
+        s!"in={idList order} out={idList order.reverse}"
+      | _ => "bad-op"
+    | none => "bad-op"
+  | _ => "bad-op"
+
+def recoverOp (args : List String) : String :=
+  -- recover <unary|stream> <client 0|1> <panic: none|nil|abort|other>
+  match args with
+  | kind :: isClient :: pv :: _ =>
+    let body : Outcome Nat := match pv with
+      | "none" => .ret 0
+      | "nil" => .panic .nil
+      | "abort" => .panic .abort
+      | _ => .panic (.other 1)
+    let r := if kind == "unary" then recoverWrapUnary (isClient == "1") body (fun _ => 99)
+             else recoverWrapStreamingHandler body (fun _ => 99)
+    let calls := " ".intercalate (r.handleCalls.map fun v => match v with
+      | .nil => "nil" | .abort => "abort" | .other _ => "other")
+    let out := match r.outcome with
+      | .ret 99 => "recovered"
+      | .ret _ => "returned"
+      | .panic .abort => "panic-abort"
+      | .panic .nil => "panic-nil"
+      | .panic (.other _) => "panic-other"
+    s!"calls=[{calls}] outcome={out}"
+  | _ => "bad-op"
+
 def step (line : String) : String :=
   match (line.trimAscii.toString.splitOn " ") with
   | ["code.str", n] => match n.toNat? with
@@ -120,6 +184,8 @@ def step (line : String) : String :=
     | _, _, _ => "bad-op"
   | "env.recv" :: args => envRecvOp args
   | "env.write" :: args => envWriteOp args
+  | "icpt" :: args => icptOp args
+  | "recover" :: args => recoverOp args
   | ["canary"] => "canary-model"
   | _ => "bad-op"
 
